@@ -16,7 +16,7 @@ def run(tier, seed):
     i = 0
     for cfg, fmt in [("cfg/File_sim.cfg", 1), ("cfg/File_sim_ok.cfg", 1), ("cfg/File_sim_ok2.cfg", 2), ("cfg/File_sim_ok5.cfg", 5), ("cfg/File_sim5.cfg", 5)]:
         for h in filecheck.walks(cfg, n // 4, 16, seed + i):
-            fam = ["ascii", "utf8", "collide"][i % 3]
+            fam = ["ascii", "utf8", "collide", "maxlen"][i % 4]
             info = None
             if i % 4 == 1:   # tiny name hash tables: long collision chains
                 sz = rng.choice(["1", "2", "3", "4"])
